@@ -10,6 +10,7 @@ extent and kind by longest match.
 import re
 
 import lexloop as L
+import vxgen
 
 LEX = L.LEX
 
@@ -186,7 +187,7 @@ proof fn lemma_dec_step(s: Seq<u8>, o: int)
 }
 ''')
     u.fn(LEX, r'^fn dec_number_literal\(mut args: LexArgs\)', name='dec_number_literal',
-         edits=[("Some(&b'e' | b'E')", "Some(b'e' | b'E')", 'D8'), ("Some(&b'+' | b'-')", "Some(b'+' | b'-')", 'D8')],
+         edits=[vxgen.D8_REFPAT],
          requires=['at_tok(&args)'],
          ensures=['sub_ok(&args, r)',
                   'r.0 == dec_end(args.input.spec_bytes(), args.offset as int)',
